@@ -1,4 +1,10 @@
+#[cfg(not(prometheus_verif_map))]
 use std::{collections::HashMap, fmt, sync::Arc};
+#[cfg(prometheus_verif_map)]
+use {
+    crate::verif_map::HashMap,
+    std::{fmt, sync::Arc},
+};
 
 use crate::{
     core::Collector,
